@@ -16,8 +16,9 @@
    redraws of the same canvas object, clear() with arbitrary terminal contents and size changes.
    Partial display mode (no alternate buffer; display origin = terminal row 0, lines below blank, as many
    terminal rows as canvas rows): any history of draws, clear() and frames abandoned by a mid-draw SIGWINCH.
-   Zero-width (combining) characters are covered except as the first character of a run.  NOT proved
-   (statement kept, oracle only): runs starting with a combining character, C0 control characters; partial display with a display origin below row 0 and size changes in
+   Zero-width (combining) characters and C0 control characters are covered except as the first character of
+   a run (a control character under a narrow encoding is one column wide and may be first).  NOT proved
+   (statement kept, oracle only): runs starting with a zero-column character; partial display with a display origin below row 0 and size changes in
    partial display mode (oracle only). *)
 From Coq Require Import ZArith List Bool Lia ZifyBool.
 Import ListNotations.
@@ -181,11 +182,18 @@ Theorem row_cells_is_threaded :
 Proof. exact row_cells_threaded_eq_lemma. Qed.
 Print Assumptions row_cells_is_threaded.
 
+(* --- C0 control characters are inside [canvas_ok] since the repair cfc4146: under UTF-8 they take no
+       column (str_util) and draw_screen drops them; under a narrow encoding they take one column and
+       are painted as '?'; [run_cells] is defined on the text that is sent ([out_text]).  A run in the
+       IBMPC charset "U" is sent untranslated and must not contain them. --- *)
+
 (* --- NOT PROVED (statement [draw_paints_any_text_full] in Model/PaintSpec.v, decided by the
-       correspondence and the oracle only): draw_paints for ANY text - runs that start with a combining
-       character, runs without columns, C0 control characters (dropped under UTF-8, '?' otherwise).  Before
-       the repairs ca038f3 / cfc4146 this statement was refuted by a witness (bottom row, a run holding only
-       a combining character), kept in corpus/C04/06_combining_characters.json. --- *)
+       correspondence and the oracle only): draw_paints for runs that START with a character taking no
+       column (a combining character or, under UTF-8, a C0 control character) and runs without columns -
+       there the combining characters reach into the run before and the row is no longer the
+       concatenation of its runs.  Before the repairs ca038f3 / cfc4146 this statement was refuted by a
+       witness (bottom row, a run holding only a combining character), kept in
+       corpus/C04/06_combining_characters.json and 07_resync_round3.json. --- *)
 
 (* --- non-vacuity --- *)
 Definition ex_cfg : cfg :=
@@ -273,4 +281,10 @@ Example ex_partial_rows_stay_in_place :
   | Some (s, t) => map (fun r => map c_cp r) (t_grid t) = [[99]; [98]] /\ s_cy s = t_y t
   | None => False
   end.
+Proof. vm_compute. split; reflexivity. Qed.
+
+(* C0 control characters: dropped under UTF-8, '?' under a narrow encoding *)
+Example ex_control_characters :
+  fst (emit_run ex_cfg (mkRs 0 false 0) (0, 0, [(97, 1); (1, 0); (98, 1)])) = [TCh 97 1; TCh 98 1] /\
+  fst (emit_run w_cfg (mkRs 0 false 0) (0, 0, [(97, 1); (1, 1); (98, 1)])) = [TCh 97 1; TCh 63 1; TCh 98 1].
 Proof. vm_compute. split; reflexivity. Qed.
